@@ -578,6 +578,14 @@ class Eval:
 
     def builtin(self, env, bb, c, name, args, dest_ty):
         short = name
+        # ---- derived Clone of plain data (and Clone of primitives / arrays): a copy of the referent
+        mc = re.match(r"^<(.+) as core::clone::Clone>::clone$", name)
+        if mc and len(args) == 1:
+            st = mc.group(1)
+            derived = any(i.get("trait") == "core::clone::Clone" and i.get("derived") and i.get("self_ty", "").split("<")[0] == st.split("<")[0] for i in getattr(self.P, "impls", []))
+            if derived or re.match(r"^(\[.*\]|[ui](8|16|32|64|128|size)|bool)$", st):
+                v = self.read_ref(env, args[0])
+                return v.copy() if isinstance(v, Agg) else v
         # ---- integer helpers
         m = re.match(r"^core::num::<impl (\w+)>::(\w+)$", name)
         if m:
